@@ -753,8 +753,8 @@ theorem S_topLoop_inj : ∀ (f g : Nat), S.topLoop f = S.topLoop g → f = g := 
 
 /-- "the protocol at this stage is a stage of the delivery model started with fuel `G`", uniformly
 in a further shift `d` (`W G` = the run of the delivery model started with fuel `G`) -/
-def StageInv (W : Nat → Fin Unit × PState) (Fc : Nat) (t : PState) (Q : SProg Unit) : Prop :=
-  ∃ G, Fc ≤ G ∧ W G = run Q.erase t ∧ ∀ d, ∃ Q', Shift d Q Q' ∧ W (G + d) = run Q'.erase t
+def StageInv (W : Nat → Fin Unit × PState) (G : Nat) (t : PState) (Q : SProg Unit) : Prop :=
+  W G = run Q.erase t ∧ ∀ d, ∃ Q', Shift d Q Q' ∧ W (G + d) = run Q'.erase t
 
 theorem final_call (F : Nat) (t2 : PState) (co' : Option Co) (hco : co' ≠ some .finalYield) (hi : Inv t2)
     (hfut : t2.fut = []) :
@@ -778,39 +778,50 @@ theorem final_call (F : Nat) (t2 : PState) (co' : Option Co) (hco : co' ≠ some
     | ret a => exact ⟨rfl, rfl⟩
     | stop st => cases st <;> exact ⟨rfl, rfl⟩
 
-theorem stages (F Fc : Nat) (W : Nat → Fin Unit × PState) :
-    ∀ (rest : List (List Char)) (t : PState) (co : Option Co) (tr : List Status),
+theorem trace_mem_callThen (F : Nat) (p' : PSt) (tr : List Status) (rest : List (List Char)) (x : Status)
+    (hx : x ∈ tr) : x ∈ (callThen F p' tr rest).1.trace := by
+  unfold callThen
+  split
+  · simp [hx]
+  · exact trace_mem_deliverRest F rest _ _ x (List.mem_cons_of_mem _ hx)
+
+/-- The induction over the pieces. `G0`: the fuel with which the delivery model, started at `t0`,
+passes through this stage. The delivery ends as the delivery model started with some `G ≥ G0` ends;
+`G` is `G0` unless some call answered `done` (a new iterator, new fuel). -/
+theorem stages (F : Nat) (W : Nat → Fin Unit × PState) :
+    ∀ (rest : List (List Char)) (t : PState) (co : Option Co) (tr : List Status) (G0 : Nat),
     co ≠ some .finalYield → TL F (progOf F co) → Inv t → t.lex.finished = false → t.eof = true →
-    t.fut = rest ++ [eofPiece] → t.trace = tr.reverse → StageInv W Fc t (progOf F co) →
-    ∃ G, Fc ≤ G ∧ (callThen F ⟨t.lex, t.exprs, co⟩ tr rest).1.status = statusOf (W G).1 ∧
+    t.fut = rest ++ [eofPiece] → t.trace = tr.reverse → StageInv W G0 t (progOf F co) →
+    ∃ G, G0 ≤ G ∧ (callThen F ⟨t.lex, t.exprs, co⟩ tr rest).1.status = statusOf (W G).1 ∧
       (callThen F ⟨t.lex, t.exprs, co⟩ tr rest).1.exprs = (W G).2.exprs ∧
-      (callThen F ⟨t.lex, t.exprs, co⟩ tr rest).1.trace = (W G).2.trace := by
+      (callThen F ⟨t.lex, t.exprs, co⟩ tr rest).1.trace = (W G).2.trace ∧
+      (G = G0 ∨ Status.done ∈ (callThen F ⟨t.lex, t.exprs, co⟩ tr rest).1.trace) := by
   -- the common part of both cases: the first call and the invariant after it
-  have common : ∀ (t : PState) (co : Option Co) (tr : List Status) (c : List Char) (fut' : List (List Char)),
+  have common : ∀ (t : PState) (co : Option Co) (tr : List Status) (c : List Char) (fut' : List (List Char)) (G : Nat),
       co ≠ some .finalYield → TL F (progOf F co) → Inv t → t.lex.finished = false →
-      t.fut = c :: fut' → t.trace = tr.reverse → StageInv W Fc t (progOf F co) →
-      (∃ G, Fc ≤ G ∧ (PSt.parseTokens F ⟨t.lex, t.exprs, co⟩).1 = .err ∧ (W G).1 = .stop .err ∧
+      t.fut = c :: fut' → t.trace = tr.reverse → StageInv W G t (progOf F co) →
+      ((PSt.parseTokens F ⟨t.lex, t.exprs, co⟩).1 = .err ∧ (W G).1 = .stop .err ∧
           (PSt.parseTokens F ⟨t.lex, t.exprs, co⟩).2.1 = (W G).2.exprs ∧ (W G).2.trace = tr.reverse) ∨
-      (∃ (st : Status) (co' : Option Co) (s1 : PState), st ≠ .err ∧
+      (∃ (st : Status) (co' : Option Co) (s1 : PState) (G' : Nat), st ≠ .err ∧
           PSt.parseTokens F ⟨t.lex, t.exprs, co⟩ = (st, s1.exprs, ⟨s1.lex, s1.exprs, co'⟩) ∧
-          co' ≠ some .finalYield ∧ TL F (progOf F co') ∧ s1.lex.pending = [] ∧
-          StageInv W Fc ((t.restore s1).deliver c fut' st) (progOf F co')) := by
-    intro t co tr c fut' hco hTL hi hfin hfut htr hinv
-    obtain ⟨G, hG, hW, hWd⟩ := hinv
+          co' ≠ some .finalYield ∧ TL F (progOf F co') ∧ s1.lex.pending = [] ∧ G ≤ G' ∧ (G' = G ∨ st = .done) ∧
+          StageInv W G' ((t.restore s1).deliver c fut' st) (progOf F co')) := by
+    intro t co tr c fut' G hco hTL hi hfin hfut htr hinv
+    obtain ⟨hW, hWd⟩ := hinv
     cases hs : suspendA (progOf F co) (view t.base) with
     | none =>
       obtain ⟨s1, e1, e2, e3⟩ := stage_err F t co c fut' hco hTL hi hfin hfut hs
       left
-      refine ⟨G, hG, e1, by rw [hW, e3], by rw [hW, e3, e2]; rfl, by rw [hW, e3]; exact htr⟩
+      refine ⟨e1, by rw [hW, e3], by rw [hW, e3, e2]; rfl, by rw [hW, e3]; exact htr⟩
     | some x =>
       obtain ⟨e, κ, v'⟩ := x
       obtain ⟨co', s1, k1, k2, k3, k4, k5, k6, k7, k8⟩ := stage_ok F t co c fut' hco hTL hi hfin hfut e κ v' hs
       right
-      refine ⟨(if e then .done else .more), co', s1, by cases e <;> simp, k1, k2, k3, k4, ?_⟩
       cases e with
       | false =>
+        refine ⟨.more, co', s1, G, by simp, k1, k2, k3, k4, Nat.le_refl _, .inl rfl, ?_⟩
         rw [k6 rfl]
-        refine ⟨G, hG, hW.trans k5, fun d => ?_⟩
+        refine ⟨hW.trans k5, fun d => ?_⟩
         obtain ⟨Q', sh, w⟩ := hWd d
         obtain ⟨κ', a1, _, a3⟩ := k8 d Q' sh
         exact ⟨κ', a1, w.trans a3⟩
@@ -829,22 +840,23 @@ theorem stages (F Fc : Nat) (W : Nat → Fin Unit × PState) :
           have hidx : f' + 1 + (F - (f' + 1) + d) = F + d := by omega
           rw [hidx] at e2
           rw [Nat.add_assoc, w, a3, e2]
-        refine ⟨G + (F - (f + 1)), by omega, ?_, fun d => ⟨S.topLoop (F + d), .top F, key d⟩⟩
+        refine ⟨.done, none, s1, G + (F - (f + 1)), by simp, k1, k2, k3, k4, by omega, .inr rfl, ?_,
+          fun d => ⟨S.topLoop (F + d), .top F, key d⟩⟩
         have := key 0
         simpa [progOf] using this
   intro rest
   induction rest with
   | nil =>
-    intro t co tr hco hTL hi hfin heof hfut htr hinv
-    rcases common t co tr eofPiece [] hco hTL hi hfin hfut htr hinv with
-      ⟨G, hG, c1, c2, c3, c4⟩ | ⟨st, co', s1, d1, d2, d3, d4, d5, d6⟩
-    · refine ⟨G, hG, ?_⟩
+    intro t co tr G0 hco hTL hi hfin heof hfut htr hinv
+    rcases common t co tr eofPiece [] G0 hco hTL hi hfin hfut htr hinv with
+      ⟨c1, c2, c3, c4⟩ | ⟨st, co', s1, G', d1, d2, d3, d4, d5, dG, dst, d6⟩
+    · refine ⟨G0, Nat.le_refl _, ?_⟩
       have hb : ((PSt.parseTokens F ⟨t.lex, t.exprs, co⟩).1 == Status.err) = true := by rw [c1]; rfl
       simp only [callThen, hb, ↓reduceIte]
       rw [c2]
-      exact ⟨c1, c3, c4.symm⟩
-    · obtain ⟨G, hG, hW, _⟩ := d6
-      refine ⟨G, hG, ?_⟩
+      exact ⟨c1, c3, c4.symm, by first | exact .inl rfl | exact .inl trivial⟩
+    · obtain ⟨hW, _⟩ := d6
+      refine ⟨G', dG, ?_⟩
       have hb : (st == Status.err) = false := by cases st <;> simp_all
       obtain ⟨a1, a2, a3, a4⟩ := addNextStream_read s1.lex eofPiece d5
       have hlex : ((t.restore s1).deliver eofPiece [] st).lex = s1.lex.endInput := by
@@ -858,18 +870,21 @@ theorem stages (F Fc : Nat) (W : Nat → Fin Unit × PState) :
       rw [hex] at f1 f2
       simp only [callThen, d2, hb, Bool.false_eq_true, ↓reduceIte, PSt.deliverRest, PSt.endInput]
       rw [hW]
-      refine ⟨f1, f2, ?_⟩
-      rw [g.2.2.1]
-      simp [PState.deliver, PState.restore, htr]
+      refine ⟨f1, f2, ?_, ?_⟩
+      · rw [g.2.2.1]
+        simp [PState.deliver, PState.restore, htr]
+      · rcases dst with h | h
+        · exact .inl h
+        · right; subst h; simp
   | cons c rest ih =>
-    intro t co tr hco hTL hi hfin heof hfut htr hinv
-    rcases common t co tr c (rest ++ [eofPiece]) hco hTL hi hfin hfut htr hinv with
-      ⟨G, hG, c1, c2, c3, c4⟩ | ⟨st, co', s1, d1, d2, d3, d4, d5, d6⟩
-    · refine ⟨G, hG, ?_⟩
+    intro t co tr G0 hco hTL hi hfin heof hfut htr hinv
+    rcases common t co tr c (rest ++ [eofPiece]) G0 hco hTL hi hfin hfut htr hinv with
+      ⟨c1, c2, c3, c4⟩ | ⟨st, co', s1, G', d1, d2, d3, d4, d5, dG, dst, d6⟩
+    · refine ⟨G0, Nat.le_refl _, ?_⟩
       have hb : ((PSt.parseTokens F ⟨t.lex, t.exprs, co⟩).1 == Status.err) = true := by rw [c1]; rfl
       simp only [callThen, hb, ↓reduceIte]
       rw [c2]
-      exact ⟨c1, c3, c4.symm⟩
+      exact ⟨c1, c3, c4.symm, by first | exact .inl rfl | exact .inl trivial⟩
     · have hb : (st == Status.err) = false := by cases st <;> simp_all
       obtain ⟨a1, a2, a3, a4⟩ := addNextStream_read s1.lex c d5
       have hlex : ((t.restore s1).deliver c (rest ++ [eofPiece]) st).lex = s1.lex.addNextStream c := by
@@ -879,17 +894,24 @@ theorem stages (F Fc : Nat) (W : Nat → Fin Unit × PState) :
         exact finished_false_eq _ a4
       have htr2 : ((t.restore s1).deliver c (rest ++ [eofPiece]) st).trace = (st :: tr).reverse := by
         simp [PState.deliver, PState.restore, htr]
-      obtain ⟨G, hG, x1, x2, x3⟩ := ih ((t.restore s1).deliver c (rest ++ [eofPiece]) st) co' (st :: tr) d3 d4
+      obtain ⟨G, hG, x1, x2, x3, x4⟩ := ih ((t.restore s1).deliver c (rest ++ [eofPiece]) st) co' (st :: tr) G' d3 d4
         (by rw [Inv, hlex]; exact a3) (by rw [hlex]; exact a4) heof rfl htr2 d6
-      refine ⟨G, hG, ?_⟩
-      rw [hlex] at x1 x2 x3
+      refine ⟨G, Nat.le_trans dG hG, ?_⟩
+      rw [hlex] at x1 x2 x3 x4
       have hex : ((t.restore s1).deliver c (rest ++ [eofPiece]) st).exprs = s1.exprs := rfl
-      rw [hex] at x1 x2 x3
+      rw [hex] at x1 x2 x3 x4
       have hni : (⟨s1.lex, s1.exprs, co'⟩ : PSt).newInput c = ⟨s1.lex.addNextStream c, s1.exprs, co'⟩ := rfl
       rw [callThen, d2]
       simp only [hb, Bool.false_eq_true, ↓reduceIte]
       rw [deliverRest_cons_eq, hni]
-      exact ⟨x1, x2, x3⟩
+      refine ⟨x1, x2, x3, ?_⟩
+      rcases x4 with h | h
+      · rcases dst with h' | h'
+        · exact .inl (h.trans h')
+        · right
+          subst h'
+          exact trace_mem_callThen F _ _ _ _ (List.mem_cons_self ..)
+      · exact .inr h
 
 theorem parseChunks_run_exprs (cs : List (List Char)) :
     (parseChunks cs).exprs = (run (topLoop (fuelFor cs)) (initState LexState.init cs)).2.exprs := by
@@ -908,12 +930,12 @@ theorem stepwise_of_fuel_cons (c : List Char) (rest : List (List Char)) (F : Nat
   obtain ⟨a1, a2, a3, a4, a5, a6⟩ := resetAddNewInput_lex p c
   have hl : (initState LexState.init (c :: rest)).lex = (p.resetAddNewInput c).lex := rfl
   have hp : p.resetAddNewInput c = ⟨(initState LexState.init (c :: rest)).lex, (initState LexState.init (c :: rest)).exprs, none⟩ := rfl
-  have hinv : StageInv (fun G => run (topLoop G) (initState LexState.init (c :: rest))) (fuelFor (c :: rest))
+  have hinv : StageInv (fun G => run (topLoop G) (initState LexState.init (c :: rest))) F
       (initState LexState.init (c :: rest)) (progOf F none) := by
-    refine ⟨F, hF, by simp [progOf, erase_topLoop], fun d => ⟨S.topLoop (F + d), .top F, by simp [erase_topLoop]⟩⟩
-  obtain ⟨G, hG, x1, x2, x3⟩ := stages F (fuelFor (c :: rest)) _ rest (initState LexState.init (c :: rest)) none [] (by simp)
+    refine ⟨by simp [progOf, erase_topLoop], fun d => ⟨S.topLoop (F + d), .top F, by simp [erase_topLoop]⟩⟩
+  obtain ⟨G, hG, x1, x2, x3, _⟩ := stages F _ rest (initState LexState.init (c :: rest)) none [] F (by simp)
     (.top F (Nat.le_refl _)) (by rw [Inv, hl]; exact a3) (by rw [hl]; exact a4) rfl rfl rfl hinv
-  simp only [hfe G hG] at x1 x2 x3
+  simp only [hfe G (Nat.le_trans hF hG)] at x1 x2 x3
   rw [parseBy_cons_callThen, hp, x1, x2, x3, hst, hex, htr]
   exact ⟨rfl, rfl, rfl⟩
 
@@ -930,5 +952,39 @@ theorem stepwise_of_fuel (cs : List (List Char)) (F : Nat) (hF : fuelFor cs ≤ 
   cases cs with
   | nil => exact stepwise_of_fuel_cons [] [] F hF hfe p
   | cons c rest => exact stepwise_of_fuel_cons c rest F hF hfe p
+
+theorem stepwise_nodone_cons (c : List Char) (rest : List (List Char)) (p : PSt)
+    (hnd : Status.done ∉ (p.parseBy (fuelFor (c :: rest)) .resetAdd (c :: rest)).1.trace) :
+    (p.parseBy (fuelFor (c :: rest)) .resetAdd (c :: rest)).1.status = (parseChunks (c :: rest)).status ∧
+    (p.parseBy (fuelFor (c :: rest)) .resetAdd (c :: rest)).1.exprs = (parseChunks (c :: rest)).exprs ∧
+    (p.parseBy (fuelFor (c :: rest)) .resetAdd (c :: rest)).1.trace = (parseChunks (c :: rest)).trace := by
+  obtain ⟨hst, htr⟩ := parseChunks_run (c :: rest)
+  have hex := parseChunks_run_exprs (c :: rest)
+  obtain ⟨a1, a2, a3, a4, a5, a6⟩ := resetAddNewInput_lex p c
+  have hl : (initState LexState.init (c :: rest)).lex = (p.resetAddNewInput c).lex := rfl
+  have hp : p.resetAddNewInput c = ⟨(initState LexState.init (c :: rest)).lex, (initState LexState.init (c :: rest)).exprs, none⟩ := rfl
+  have hinv : StageInv (fun G => run (topLoop G) (initState LexState.init (c :: rest))) (fuelFor (c :: rest))
+      (initState LexState.init (c :: rest)) (progOf (fuelFor (c :: rest)) none) := by
+    refine ⟨by simp [progOf, erase_topLoop], fun d => ⟨S.topLoop (fuelFor (c :: rest) + d), .top _, by simp [erase_topLoop]⟩⟩
+  obtain ⟨G, hG, x1, x2, x3, x4⟩ := stages (fuelFor (c :: rest)) _ rest (initState LexState.init (c :: rest)) none []
+    (fuelFor (c :: rest)) (by simp) (.top _ (Nat.le_refl _)) (by rw [Inv, hl]; exact a3) (by rw [hl]; exact a4) rfl rfl rfl hinv
+  rw [parseBy_cons_callThen, hp] at hnd ⊢
+  rcases x4 with h | h
+  · subst h
+    rw [x1, x2, x3, hst, hex, htr]
+    exact ⟨rfl, rfl, rfl⟩
+  · exact absurd h hnd
+
+/-- **Up to the first `done`, all three components, errors included**: with the fuel of the delivery
+model, if no call before the last answers `done` the protocol gives status, expressions and trace of
+`parseChunks`, whatever the outcome. -/
+theorem stepwise_nodone (cs : List (List Char)) (p : PSt)
+    (hnd : Status.done ∉ (p.parseBy (fuelFor cs) .resetAdd cs).1.trace) :
+    (p.parseBy (fuelFor cs) .resetAdd cs).1.status = (parseChunks cs).status ∧
+    (p.parseBy (fuelFor cs) .resetAdd cs).1.exprs = (parseChunks cs).exprs ∧
+    (p.parseBy (fuelFor cs) .resetAdd cs).1.trace = (parseChunks cs).trace := by
+  cases cs with
+  | nil => exact stepwise_nodone_cons [] [] p hnd
+  | cons c rest => exact stepwise_nodone_cons c rest p hnd
 
 end ZygoVerif.Parser
